@@ -43,7 +43,7 @@ def main():
             if not ctx.lean_state.proofs_ok:
                 ctx.escalate = True  # search for a failing input at thorough size
         if ctx.lean_state is None or ctx.lean_state.driver_ok:
-            ctx.driver = common.Driver()
+            ctx.driver = common.Driver(prop)
         if a.replay:
             rp = json.loads(open(a.replay).read())
             mod.replay(ctx, rp)
